@@ -578,14 +578,20 @@ class RecordMap(ShiftPipeAction):
         rk = s1.record_keys()
         if set(rk) != set(s2.record_keys()):
             raise ValueError("can only compose operations with matching record_keys")
-        inp = s1.example_input()
+        # example cells carry their own names, so the result shows where each cell lands
+        inp = s1.example_input(value_suffix="")
         out = s2.transform(s1.transform(inp))
         rsi = inp.drop(rk, axis=1, inplace=False)
         rso = out.drop(rk, axis=1, inplace=False)
         strict = self.strict and other.strict
         if inp.shape[0] < 2:
             if out.shape[0] < 2:
-                return None
+                # row records to row records: the identity, or a renaming of columns
+                if all([rso[c][0] == c for c in rso.columns]):
+                    return None
+                raise ValueError(
+                    "composition only renames columns, which is not a record map"
+                )
             else:
                 return RecordMap(
                     blocks_out=RecordSpecification(
@@ -598,6 +604,12 @@ class RecordMap(ShiftPipeAction):
                 )
         else:
             if out.shape[0] < 2:
+                # name each incoming cell by the row record column it lands in
+                landing = {rso[c][0]: c for c in rso.columns}
+                rsi = rsi.copy()
+                for c in rsi.columns:
+                    if c not in s1.blocks_in.control_table_keys:
+                        rsi[c] = [landing[v] for v in rsi[c]]
                 return RecordMap(
                     blocks_in=RecordSpecification(
                         control_table=rsi,
